@@ -5,6 +5,10 @@ Import ListNotations.
 From CK Require Import Gen.
 From CK Require Import Fold.
 From CK Require Import FoldCheck.
+From CK Require Import Base.
+From CK Require Import Circ.
+From CK Require Import Algebra.
+From CK Require Import Optim.
 Close Scope Qc_scope. Close Scope Q_scope. Close Scope Z_scope. Open Scope nat_scope.
 
 (* evaluating any folded graph through its address book (concatenate the listed module outputs, gather by the index lists, apply the members fold-wise) reproduces the unfolded values slice by slice whenever the book is consistent; modules are arbitrary functions, so this holds for every layer type, semiring, parameter value and input *)
@@ -54,3 +58,128 @@ Theorem C02_outputs_sound :
            out_cum = map (fun o : nat => nth o (ueval V dV g) dV) outs.
 Proof. exact checked_outputs_sound. Qed.
 Print Assumptions C02_outputs_sound.
+
+(* optimisation rule apply_sum_collapse: a sum layer applied to a sum layer is one sum layer with the matrix product of the weights (any commutative semiring, no shape hypothesis) *)
+Theorem C02_rule_sum_collapse :
+  forall (R : Type) (rO rI : R) (radd rmul : R -> R -> R),
+         semi_ring_theory rO rI radd rmul eq ->
+         forall (W2 W1 : list (vec R)) (x : vec R),
+         mv R rO radd rmul (mm R radd rmul W2 W1) x = mv R rO radd rmul W2 (mv R rO radd rmul W1 x).
+Proof. exact sum_collapse. Qed.
+Print Assumptions C02_rule_sum_collapse.
+
+(* ... at circuit-node level, inner sum of any arity *)
+Theorem C02_rule_sum_collapse_node :
+  forall (R : Type) (rO rI : R) (radd rmul : R -> R -> R),
+         semi_ring_theory rO rI radd rmul eq ->
+         forall (D : Type) (W2 W1 : list (vec R)) (ins : list nat) (y : asg D) (vals : list (vec R)),
+         eval_node R rO radd rmul D (NSum R D (mm R radd rmul W2 W1) ins) y vals =
+         mv R rO radd rmul W2 (eval_node R rO radd rmul D (NSum R D W1 ins) y vals).
+Proof. exact sum_collapse_node. Qed.
+Print Assumptions C02_rule_sum_collapse_node.
+
+(* apply_tucker / TorchTuckerLayer: a sum layer over an n-ary Kronecker product is the explicit contraction of the weight (viewed with one axis per input, first input major) with the inputs *)
+Theorem C02_rule_tucker :
+  forall (R : Type) (rO rI : R) (radd rmul : R -> R -> R),
+         semi_ring_theory rO rI radd rmul eq ->
+         forall W xs : list (vec R),
+         xs <> [] -> mv R rO radd rmul W (kronn R rmul xs) = tuckern R rO rI radd rmul W xs.
+Proof. exact tucker_fuse_n. Qed.
+Print Assumptions C02_rule_tucker.
+
+(* apply_candecomp / TorchCPTLayer: a sum layer over an n-ary Hadamard product is sum_i W[o,i] prod_j x_j[i] *)
+Theorem C02_rule_candecomp :
+  forall (R : Type) (rO rI : R) (radd rmul : R -> R -> R),
+         semi_ring_theory rO rI radd rmul eq ->
+         forall W xs : list (vec R),
+         xs <> [] -> mv R rO radd rmul W (hadn R rmul xs) = cptn R rO rI radd rmul W xs.
+Proof. exact candecomp_fuse. Qed.
+Print Assumptions C02_rule_candecomp.
+
+(* a sum layer whose weight is a Kronecker product of matrices (torch.kron order) applied to a Kronecker product of vectors is the Kronecker product of the two applications *)
+Theorem C02_rule_kronecker_weight :
+  forall (R : Type) (rO rI : R) (radd rmul : R -> R -> R),
+         semi_ring_theory rO rI radd rmul eq ->
+         forall (A B : list (vec R)) (x y : vec R),
+         rows R (length x) A ->
+         rows R (length y) B ->
+         mv R rO radd rmul (mkron R rmul A B) (kron R rmul x y) =
+         kron R rmul (mv R rO radd rmul A x) (mv R rO radd rmul B y).
+Proof. exact mkron_mixed. Qed.
+Print Assumptions C02_rule_kronecker_weight.
+
+(* apply_dense_tensordot: the dense layer with weight W1 (x) W2 equals the two tensor-dot layers (reshape / permute / contract convention of TorchTensorDotLayer.forward) *)
+Theorem C02_rule_dense_tensordot :
+  forall (R : Type) (rO rI : R) (radd rmul : R -> R -> R),
+         semi_ring_theory rO rI radd rmul eq ->
+         forall (a0 a1 b1 : nat) (W1 W2 : list (vec R)) (x : vec R),
+         length W1 = a0 ->
+         rows R a1 W1 ->
+         rows R b1 W2 ->
+         mv R rO radd rmul (mkron R rmul W1 W2) x =
+         tdot R rO radd rmul b1 a0 W2 (tdot R rO radd rmul a1 b1 W1 x).
+Proof. exact dense_tensordot. Qed.
+Print Assumptions C02_rule_dense_tensordot.
+
+(* apply_tensordot_tensordot: a tensor-dot layer with Kronecker weight splits into two tensor-dot layers *)
+Theorem C02_rule_tensordot_tensordot :
+  forall (R : Type) (rO rI : R) (radd rmul : R -> R -> R),
+         semi_ring_theory rO rI radd rmul eq ->
+         forall (a0 a1 b1 Kq : nat) (W1 W2 : list (vec R)) (x : vec R),
+         length W1 = a0 ->
+         rows R a1 W1 ->
+         rows R b1 W2 ->
+         tdot R rO radd rmul (a1 * b1) Kq (mkron R rmul W1 W2) x =
+         tdot R rO radd rmul b1 (a0 * Kq) W2 (tdot R rO radd rmul a1 (b1 * Kq) W1 x).
+Proof. exact tdot_kron_split. Qed.
+Print Assumptions C02_rule_tensordot_tensordot.
+
+(* apply_sum_outer_prod_einsum: reduce-sum over axis 1 of the outer product along axis 0 is the matrix of dot products (einsum jl,kl->jk, flattened) *)
+Theorem C02_rule_reduce_outer_a :
+  forall (R : Type) (rO : R) (radd rmul : R -> R -> R) (A B : list (vec R)),
+         rsum1 R rO radd (outer0 R rmul A B) =
+         tab2 (length A) (length B) (fun j k : nat => dot R rO radd rmul (nth j A []) (nth k B [])).
+Proof. exact reduce1_outer0. Qed.
+Print Assumptions C02_rule_reduce_outer_a.
+
+(* ... reduce-sum over axis 0 of the outer product along axis 0 (einsum jl,kl->l) *)
+Theorem C02_rule_reduce_outer_b :
+  forall (R : Type) (rO rI : R) (radd rmul : R -> R -> R),
+         semi_ring_theory rO rI radd rmul eq ->
+         forall (N : nat) (A B : list (vec R)),
+         rsum0 R rO radd N (outer0 R rmul A B) = had R rmul (rsum0 R rO radd N A) (rsum0 R rO radd N B).
+Proof. exact reduce0_outer0. Qed.
+Print Assumptions C02_rule_reduce_outer_b.
+
+(* ... reduce-sum over axis 1 of the outer product along axis 1 (einsum nj,nk->n) *)
+Theorem C02_rule_reduce_outer_c :
+  forall (R : Type) (rO rI : R) (radd rmul : R -> R -> R),
+         semi_ring_theory rO rI radd rmul eq ->
+         forall A B : list (vec R),
+         rsum1 R rO radd (outer1 R rmul A B) =
+         map (fun p : vec R * vec R => rmul (vsum R rO radd (fst p)) (vsum R rO radd (snd p))) (combine A B).
+Proof. exact reduce1_outer1. Qed.
+Print Assumptions C02_rule_reduce_outer_c.
+
+(* ... reduce-sum over axis 0 of the outer product along axis 1 (einsum nj,nk->jk, flattened) *)
+Theorem C02_rule_reduce_outer_d :
+  forall (R : Type) (rO rI : R) (radd rmul : R -> R -> R),
+         semi_ring_theory rO rI radd rmul eq ->
+         forall (K1 K2 : nat) (A B : list (vec R)),
+         rows R K2 B ->
+         rsum0 R rO radd (K1 * K2) (outer1 R rmul A B) =
+         tab2 K1 K2 (fun j k : nat => dot R rO radd rmul (col R rO j A) (col R rO k B)).
+Proof. exact reduce0_outer1. Qed.
+Print Assumptions C02_rule_reduce_outer_d.
+
+(* apply_log_softmax: log o softmax = log_softmax over any structure with exp / log / division satisfying log(x/y) = log x - log y on positives and log(exp x) = x *)
+Theorem C02_rule_log_softmax :
+  forall (F : Type) (fsub fdiv : F -> F -> F) (fexp flog : F -> F) (fsum : list F -> F)
+           (pos : F -> Prop),
+         (forall x y : F, pos x -> pos y -> flog (fdiv x y) = fsub (flog x) (flog y)) ->
+         (forall x : F, flog (fexp x) = x) ->
+         (forall x : F, pos (fexp x)) ->
+         (forall l : list F, l <> [] -> (forall x : F, In x l -> pos x) -> pos (fsum l)) ->
+         forall x : list F, map flog (softmax F fdiv fexp fsum x) = log_softmax F fsub fexp flog fsum x.
+Proof. exact log_softmax_fuse. Qed.
+Print Assumptions C02_rule_log_softmax.
